@@ -523,6 +523,12 @@ Theorem C04_window_positions :
     forall j, j < S i - (S i - w) -> nth_error (win w i xs) j = nth_error xs (S i - w + j).
 Proof. exact (@win_positions). Qed.
 
+(* ... and a window at least as long as the prefix (every position when w > len) is the whole prefix 0..=i: the
+   statistics are then the expanding ones *)
+Theorem C04_window_covers_prefix :
+  forall (X : Type) (w i : nat) (xs : list X), S i <= w -> win w i xs = firstn (S i) xs.
+Proof. exact (@win_covers_prefix). Qed.
+
 (* (a, b) is an observation iff some position of the window holds a in the first and b in the second series, both
    non-null; the count is the number of such positions, and a null in EITHER series drops the position from both
    coordinates *)
@@ -716,3 +722,4 @@ Print Assumptions C04_count_at_XR.
 Print Assumptions C04_trend_below_min_periods_null_any_carrier.
 Print Assumptions C04_perfect_window_regx.
 Print Assumptions C04_resid_below_min_periods_null_any_carrier.
+Print Assumptions C04_window_covers_prefix.
